@@ -100,7 +100,7 @@ func c07Directed(c *core.Ctx) {
 		perSender: 6 + c.Rng.IntN(10),
 		subs:      2 + c.Rng.IntN(6),
 		sentinel:  c.Rng.IntN(2) == 0,
-		kinds:     []string{"manual", "manual-timer", "manual-immediate", "iter", "iter-cancel", "iter-cancel-timer", "iter-never", "iter-cancel-then-run", "iter-precancelled", "iter-panic"},
+		kinds:     []string{"manual", "manual-timer", "manual-immediate", "iter", "iter-cancel", "iter-cancel-timer", "iter-never", "iter-cancel-then-run", "iter-precancelled", "iter-panic", "iter-nil-yield"},
 		joinLate:  true,
 	}
 	p := c.NewPerturb(core.PerturbOpts{P: core.Pick(c.Rng, 0, 0.05)})
